@@ -5,6 +5,7 @@ import MstVerif.Proofs.History
 import MstVerif.Proofs.Level
 import MstVerif.Proofs.Ref
 import MstVerif.Proofs.HashExtra
+import MstVerif.Proofs.LevelU8
 
 namespace Mst.Props
 open Mst
@@ -34,6 +35,21 @@ theorem C14_root (lvl : K → Nat) (hlvl : ∀ k, lvl k < 255) (hc : HashCfg K V
   refine ⟨t, r, ?_, ?_⟩
   · rw [g, trueHash_eq_refRoot lvl hc t.root i.shape, c]
   · rw [e, erase_eq_ref lvl t.root i.shape, c]
+
+/-- The Rust accumulates the level in a `u8` (src/digest/trait.rs:78-90). For every digest of at most
+127 bytes (the property quantifies over widths 1..32) and every base, in BOTH build profiles (overflow
+checks on / off), that machine computation returns exactly the model's level, which is < 255. At 128
+zero bytes it overflows: a panic with overflow checks, a silent wrap to level 0 without — outside the
+quantifier, recorded so that the `Nat` in the model hides nothing. -/
+theorem C14_level_machine (checked : Bool) (d : List UInt8) (base : Nat) (h : d.length ≤ 127) :
+    levelU8 checked d base = .ok (UInt8.ofNat (level d base)) ∧ level d base < 255 :=
+  levelU8_eq_level checked d base h
+
+theorem C14_level_machine_overflow (base : Nat) :
+    (levelU8 true (List.replicate 128 0) base).toOption = none ∧
+    (levelU8 false (List.replicate 128 0) base).toOption = some 0 ∧
+    level (List.replicate 128 0) base = 256 :=
+  ⟨levelU8_overflow_checked base, (levelU8_overflow_wraps base).1, (levelU8_overflow_wraps base).2⟩
 
 /-- Every page digest (not only the root's) is the reference one: the hashed tree is, page for
 page, the hashed (cache-free) reference tree. -/
